@@ -11,12 +11,12 @@ NA = {
 
 CHECKS['C04'] = dict(
     technique='static analysis: grammar twin lint (SEMI/AUTOSEMI), decision tables of Lexer.auto_semi and of the restricted-production rule by abstract evaluation of the function syntax trees over the complete token-type domain, finite exploration of the extracted token-tracking transition function, t_ignore character-set check',
-    text='Decides the clauses of ASI whose truth is in the shape of the code: which productions accept an inserted semicolon, the insertion predicate (exhaustive truth table vs 7.9.1), the restricted-production set, comment transparency of the line-terminator evidence, and that every ES5 line terminator reaches the rule. Does not decide the whole-program equivalence clause (depends on ply error recovery).',
+    text='Decides the clauses of ASI whose truth is in the shape of the code: which productions accept an inserted semicolon, the insertion predicate (exhaustive truth table vs 7.9.1), the restricted-production set - including every run of up to three comments / line terminators (multi-line, form-feed and U+2029 comments) after the keyword, fed through the get_lexer_token of the lexer over a laid-out text, and the delivery of the supplied semicolon by Lexer.token -, comment transparency of the line-terminator evidence, and that every ES5 line terminator reaches the rule. Does not decide the whole-program equivalence clause (depends on ply error recovery).',
     ref='DESIGN.md section 3 C04',
     note='Trusted: CPython ast, the abstract evaluator engine/absint.py (interprets syntax trees over stand-in values; no repository code is imported), ECMA-262 7.9.1 facts embedded in the checker.')
 CHECKS['C05'] = dict(
     technique='static analysis: terminal adjacency fixpoint of the grammar with role-split reserved words vs the look-behind frozensets; Lexer._token evaluated from its source (peek loop, comment bypass, decision, helper methods; only the raw ply reader is a stand-in) over token contexts x marker runs x candidate characters; decision table of the re-lex branch of p_error',
-    text='Decides the table/grammar agreement exhaustively (94 terminals), the layout transparency and header-stack behaviour on ~620 abstract contexts (thorough: all marker runs up to length 3), the peek set against t_ignore and the comment bypass for every ASCII follower. The stack discipline for arbitrarily deep nesting is not decided.',
+    text='Decides the table/grammar agreement exhaustively (94 terminals), the layout transparency and header-stack behaviour on ~2900 abstract contexts (marker runs after and inside every context; thorough: all marker runs up to length 3), the re-lex hook incl. its re-entry with the inserted semicolon, the peek set against t_ignore and the comment bypass for every ASCII follower. The stack discipline for arbitrarily deep nesting is not decided.',
     ref='DESIGN.md sections 3 (C05), 13.3',
     note='Trusted: CPython ast, the evaluator engine/absint.py (interprets syntax trees over stand-in values; no repository code is imported), adjacency fixpoint. No syntactic shape of _token is assumed any more.')
 
@@ -33,7 +33,7 @@ CHECKS['C08'] = dict(
 
 CHECKS['C16'] = dict(
     technique='static analysis: attribute typing from abstract interpretation of the parser actions vs the shape of each class\'s children(); abstract evaluation of Node.__iter__ / Walker.walk / filter / extract on abstract trees',
-    text='Decides children() completeness for every node class the parser builds (53 classes, 177 attribute obligations, exhaustive) and the traversal discipline of the generic walkers on a family of abstract trees.',
+    text='Decides children() completeness for every node class the parser builds (53 classes, 177 attribute obligations, exhaustive) and the traversal discipline of the generic walkers on a family of abstract trees, incl. per class an instance with leaf children and one with every list attribute empty followed by a sibling (truth value by the __len__ / __bool__ of the class), and extract for negative, valid and too large skip.',
     ref='DESIGN.md section 3 C16',
     note='Trusted: action interpreter typing (E4), abstract evaluator. Trees built by hand with attributes the parser never sets are outside the quantifier.')
 CHECKS['C14'] = dict(
@@ -92,7 +92,7 @@ CHECKS['C02'] = dict(
 
 CHECKS['C06'] = dict(
     technique='static analysis: token regexes compiled from source to DFAs over character-class atoms (CPython re._parser as front end) and compared with ES5 reference automata (white space, terminators, comments: equivalence; NUMBER/STRING/REGEX: inclusion both ways with shortest witnesses); ply rule order reconstructed and every ordered rule pair checked for ordered-choice = longest-match; effect analysis of token attribute stores; Lexer.token evaluated from source on a raw stream per token type; decision tables of the line/column bookkeeping by evaluation, for every token type whose rule can match a line terminator',
-    text="Decides the lexical tables: gap and literal languages (automata, exact), longest-first for all 1500+ ordered rule pairs, exact keyword set, no token rewriting, which raw tokens reach the parser, one line-index update per token. ply's own offset bookkeeping is outside the repository.",
+    text="Decides the lexical tables: gap and literal languages (automata, exact), longest-first for all 1500+ ordered rule pairs, every fixed-lexeme rule matching its lexeme in every right context (R06.6), exact keyword set, no token rewriting, which raw tokens reach the parser, and line / column of every token of a text that uses every terminator kind (get_lexer_token evaluated token by token). ply's own offset bookkeeping is outside the repository.",
     ref='DESIGN.md sections 3 (C06), 13.1',
     note="Trusted: CPython re._parser, transcription of ply.lex rule ordering, ES5 7.2-7.8 reference patterns, assumption that each rule's Python regex match is its longest match (checked for the look-ahead alternatives).")
 CHECKS['C19'] = dict(
